@@ -12,7 +12,8 @@ CHECK_MODS = ['Model.Core', 'Model.Manager', 'Checks.Corechk', 'Checks.CoreProps
 CASE_TYPE = 'C09_case'
 CORR, PROPCHK = 'C09_corr', 'C09_prop'
 THEOREMS = ['C09_locality', 'C09_interleaving_equals_solo_run', 'C09_interleaving_with_execution_options',
-            'C09_execution_options_adopt_nothing', 'C09_each_session_is_a_core_run', 'C09_quiescent_after_rollback',
+            'C09_execution_options_adopt_nothing', 'C09_each_session_is_a_core_run', 'C09_unit_of_work_is_the_code', 'C09_clear_is_the_code',
+            'C09_clear_connection_is_the_code', 'C09_track_cloned_connections_is_the_code', 'C09_maps_stay_dictionaries', 'C09_quiescent_after_rollback',
             'C09_quiescent_after_commit', 'C09_example']
 RULE = ('k = 2 or 3 session programs (add / set / delete / flush / commit / rollback / close / set-execution-options-on-the-connection steps over the blog shape) are '
         'interleaved step by step; each session has its own SQLite database, engine and connection but all share the one '
